@@ -279,12 +279,15 @@ fn c16_drain_contract() {
 // Drain::sample_rate / Drain::drop for EVERY (pushed, capacity) pair in usize x usize -- these two touch only the
 // Drain's own fields and `count`, so the Drain is built with the field values `drain()` computes (previous contract)
 // over a zero-slot reservoir: complete, no capacity bound.
-pub fn c16_rate_and_reset_body(count: usize, cap: usize) {
+pub fn c16_rate_and_reset_body(count: usize, cap: usize, taken: usize) {
     let r = Reservoir::with_capacity(0);
     r.count.store(count, Relaxed);
     let yielded = if count > cap { cap } else { count };
+    // `taken` values have already been pulled out of the drain: the reported sample rate is a property of the drain, not of how
+    // far the caller has iterated ("values yielded divided by values pushed since the previous drain")
+    if taken > yielded { return; }
     {
-        let d = Drain { reservoir: &r, unsampled_len: count, len: yielded, idx: 0 };
+        let d = Drain { reservoir: &r, unsampled_len: count, len: yielded, idx: taken };
         let rate = d.sample_rate();
         if count <= cap {
             assert!(rate == 1.0);
@@ -294,7 +297,7 @@ pub fn c16_rate_and_reset_body(count: usize, cap: usize) {
             assert!(rate <= 1.0 && rate >= 0.0);
             assert!(cap == 0 || rate > 0.0);
         }
-        assert!(ExactSizeIterator::len(&d) == yielded);
+        assert!(ExactSizeIterator::len(&d) == yielded - taken);
         kani::cover!(count > cap && cap > 0 && rate < 0.5);
         kani::cover!(count == 0);
     }
@@ -305,7 +308,7 @@ pub fn c16_rate_and_reset_body(count: usize, cap: usize) {
 #[kani::proof]
 #[kani::solver(cvc5)]
 fn c16_rate_and_reset() {
-    c16_rate_and_reset_body(kani::any(), kani::any());
+    c16_rate_and_reset_body(kani::any(), kani::any(), kani::any());
 }
 
 // ------------------------------------------------------------------------------------------------
